@@ -83,6 +83,7 @@ class UnitResult:
         self.stderr = ''
         self.canaries = []
         self.total_smt_ms = 0
+        self.watch = {}
 
 
 def _obligation_labels(unit, A):
@@ -205,6 +206,13 @@ def run_unit(name, tier='quick', variant=None, keep=True):
         if variant:
             variant(unit)
         A = assemble(unit)
+        # WATCH: functions the unit only ASSUMES a contract for (reviewed text): their fingerprints are part of the registration
+        R.watch = {}
+        from .assemble import source as _src, fingerprint as _fp, DEFAULT_FEATURES as _DF
+        for (wf, wpath) in getattr(unit, 'WATCH', []):
+            sf = _src(wf)
+            first, last = sf.find(wpath, getattr(unit, 'FEATURES', _DF))
+            R.watch[f'{wf}:{wpath}'] = _fp(sf.item_tokens(first, last))
     except (LostAnchor, Unsupported, LexError) as e:
         R.status, R.reason = 'undecided', f'lost-anchor: {e}'
         R.wall_s = time.time() - t0
@@ -409,6 +417,7 @@ def register(name):
         'verified': R.verified,
         'obligations': {},
         'fingerprints': {it['name']: it['fingerprint'] for it in R.items},
+        'watch': getattr(R, 'watch', {}),
     }
     for label, props in R.obligations:
         if label in failed:
